@@ -705,6 +705,46 @@ pub fn power_levels_cases() -> Vec<AuthCase> {
                 }
             }
         }
+        // a whole map present on one side only: its entries are added / removed all the same
+        for m in ["events", "notifications", "users"] {
+            for absent_side in ["old", "new"] {
+                for val in [l - 1, l, l + 1] {
+                    for extra in [false, true] {
+                        let mut s = Sc::new(v);
+                        s.member(ALICE, "join");
+                        let key: &str = match m {
+                            "users" => BOB,
+                            "events" => "m.room.topic",
+                            _ => "room",
+                        };
+                        // the sender's level and the level required for the power_levels event come
+                        // from the defaults, so that neither depends on the map under test
+                        let mut with = json!({"users_default": l, "state_default": l, "users": {CREATOR: 100}, "events": {}});
+                        let mut without = with.clone();
+                        if m == "users" {
+                            // removing the creator's entry is refused for its own reason: leave it out
+                            with["users"] = json!({});
+                        }
+                        with[m] = if m == "notifications" { json!({}) } else { with[m].clone() };
+                        with[m][key] = json!(val);
+                        if extra {
+                            // a second, harmless entry before or after the deciding one
+                            let k2 = match m {
+                                "users" => "@zed:hs1",
+                                "events" => "a.first",
+                                _ => "zzz",
+                            };
+                            with[m][k2] = json!(0);
+                        }
+                        without.as_object_mut().unwrap().remove(m);
+                        let (oc, nc) = if absent_side == "old" { (without, with) } else { (with, without) };
+                        s.pl(oc);
+                        let e = s.event("m.room.power_levels", Some(""), ALICE, nc);
+                        out.push(s.case("power_levels/whole-map", e));
+                    }
+                }
+            }
+        }
         // value spellings
         for (name, val) in [("int", json!(50)), ("numeric-string", json!("50")), ("padded-string", json!(" 50 ")), ("plus-string", json!("+50")), ("word-string", json!("abc")), ("float", json!(50.5)), ("bool", json!(true)), ("null", json!(null))] {
             for place in ["field", "events-entry", "users-entry", "notifications-entry"] {
